@@ -268,9 +268,6 @@ def _own_namespace(repo, rep, pa):
               "the attribute's own (namespace, name)",
               construct="snapshot-index:keys", where=L.where(g),
               detail=str([src(p_) for p_ in pops]))
-    rep.check(True, "R18.1", ve.qualname, "the functions that take "
-              "attributes out before the drop set is computed were analysed",
-              construct="zip-callees", detail="1")
 
 
 def _zip(repo, rep):
